@@ -10,7 +10,6 @@ import numpy as np
 from harness.common import deep_compare, err_kind, frac
 
 PID = "C08"
-DISABLED = True
 THEOREMS = [
     "PorepyVerif.C08.set_refines",
     "PorepyVerif.C08.add_refines",
@@ -37,7 +36,7 @@ THEOREMS = [
 LEAN_MODULES = ["PorepyVerif.C08.Props"]
 AUDIT = "PorepyVerif/C08/Audit.lean"
 DRIVER = "PorepyVerif/C08/Driver.lean"
-N = {"quick": 400, "thorough": 8000}
+N = {"quick": 1000, "thorough": 15000}
 TS, IT = "time_step_solutions", "iterate_solutions"
 RULE = ("histories of 3-40 calls; two layers: 'utils' = ad_utils.set/get/shift_solution_values on a plain data dict with 1-2 names "
         "(arrays of length 2-4), 'es' = EquationSystem.set/get_variable_values, shift_time_step_values, shift_iterate_values on a "
@@ -205,7 +204,7 @@ def gen_case(rng, tier):
             else:
                 ops.append(raw_set(name, ts, it, additive))
         else:  # read
-            j = rng.choice([0, 0, 1, 1, 2, 3, 4, 5])
+            j = rng.choice([0, 0, 0, 1, 1, 1, 2, 2, 3, 4, 5])
             if rng.random() < 0.5:
                 ts, it = j, None
             else:
@@ -482,8 +481,9 @@ class _Ref:
     def st(self, loc, name):
         return self.stores.setdefault((loc, name), _RefStore())
 
-    def apply(self, op):
-        """expectation for one helper-level call: list of per-location expectations or ("invalid",)"""
+    def apply(self, op, is_err):
+        """expectation for one helper-level call: list of per-location expectations or ("invalid",).
+        `is_err`: the real call raised (only used to decide how far a two-location write got when that is unspecified)"""
         o = op["op"]
         if o == "shift":
             if op["loc"] not in (TS, IT):
@@ -498,11 +498,16 @@ class _Ref:
             return [self.st(li[0][0], op["name"]).get(li[0][1])]
         v = [Fraction(x) for x in op["values"]]
         exps = []
-        for loc, i in li:
+        for n, (loc, i) in enumerate(li):
             s = self.st(loc, op["name"])
             e = s.add(i, v) if op["additive"] else s.set(i, v)
             exps.append(e)
             if e[0] == "err":
+                break
+            if e[0] == "unknown" and is_err:
+                # this write or a later one raised: nothing is specified for the remaining locations
+                for loc2, _ in li[n + 1:]:
+                    self.st(loc2, op["name"]).lose()
                 break
         return exps
 
@@ -526,7 +531,7 @@ def oracle(case):
         kind = op["op"].replace("es_", "")
         exp_err, uncertain, segs = None, False, []
         for j, sub in enumerate(subs):
-            exps = ref.apply(sub)
+            exps = ref.apply(sub, is_err)
             bad = [e for e in exps if e[0] in ("unknown", "invalid", "nochange")]
             errs = [e for e in exps if e[0] == "err"]
             if bad:
